@@ -126,6 +126,11 @@ impl Scenario for C11 {
         spec.ops = ops;
         // aux[0]: format used at the enumerated (non-destructive) crash points
         spec.aux = vec![rng.below(2)];
+        if matches!(kind, Kind::Isaac | Kind::Isaac64) && rng.chance(1, 6) {
+            // aux[1] = u64::MAX: all crash points; aux[2] = 1 + k: word k of the durable state is zero
+            spec.aux.push(u64::MAX);
+            spec.aux.push(1 + rng.below(512));
+        }
         spec
     }
 
@@ -141,7 +146,7 @@ impl Scenario for C11 {
     }
 
     fn rule(&self) -> String {
-        "Each run (history): one of the 18 serialisable generator types (IsaacRng/Isaac64Rng over-weighted), any seeding route, native pre-advance 0..=block_len+2, a history of 1..20 next_u32/next_u64/fill_bytes/jump ops with up to 3 destructive crash points (live generator := restore(snapshot(live)), so later snapshots are restores of restores). The crash point is ENUMERATED: after the pre-advance and after every operation the live generator is serialised (bincode or serde_json), the original is kept, and a copy restored from the bytes alone runs the whole remaining history plus a 3-block drain; the twin that never serialised, the original and every restored copy must agree value for value, and restored == original where == exists. Each such (history, crash point) pair is one evaluation. (sweep): for one seed, IsaacRng at every index 0..=256 and Isaac64Rng at every (index, half_used) is snapshotted, restored and drained - a complete sweep of the durable buffer states. distinct_nontrivial = distinct (type, format, buffer index at the crash point, half flag) signatures.".into()
+        "Each run (history): one of the 18 serialisable generator types (IsaacRng/Isaac64Rng over-weighted), any seeding route, native pre-advance 0..=block_len+2, a history of 1..20 next_u32/next_u64/fill_bytes/jump ops with up to 3 destructive crash points (live generator := restore(snapshot(live)), so later snapshots are restores of restores). In one ISAAC history out of six one word of the durable state (a buffered result word or a word of the core's mem) is first set to 0 through the image - generated zero words are far too rare (2^-32 per word) to wait for. The crash point is ENUMERATED: after the pre-advance and after every operation the live generator is serialised (bincode or serde_json), the original is kept, and a copy restored from the bytes alone runs the whole remaining history plus a 3-block drain; the twin that never serialised, the original and every restored copy must agree value for value, and restored == original where == exists. Each such (history, crash point) pair is one evaluation. (sweep): for one seed, IsaacRng at every index 0..=256 and Isaac64Rng at every (index, half_used) is snapshotted, restored and drained - a complete sweep of the durable buffer states. distinct_nontrivial = distinct (type, format, buffer index at the crash point, half flag) signatures.".into()
     }
     fn assumptions(&self) -> Vec<String> {
         vec![
@@ -160,26 +165,63 @@ impl Scenario for C11 {
             "probe:complete_index_half_sweeps",
             "fault:crash_restart",
             "probe:restored_eq_checked",
+            "probe:zero_word_state",
         ]
     }
 }
 
 impl C11 {
+    /// The generator at the start of the history: built through its seeding route, pre-advanced, and -
+    /// when `aux[2] = 1 + k` - with ONE WORD OF ITS STATE SET TO ZERO through the durable image
+    /// (k < 256: buffered result word k, else state word k - 256 of the core's `mem`). A generated
+    /// word or state word that happens to be 0 has probability 2^-32 / 2^-64 per word, so such states
+    /// are manufactured instead of waited for; they are ordinary reachable states.
+    fn start(&self, spec: &Spec, native: Call, st: &mut Stats) -> Result<Box<dyn DynGen>, E> {
+        let kind = spec.kind.expect("kind");
+        let mut g = build(spec, false).map_err(E::End)?;
+        for _ in 0..spec.pre {
+            sut(super::c05::do_call(g.as_mut(), native), "pre")?;
+        }
+        let k = spec.aux.get(2).copied().unwrap_or(0);
+        if k == 0 || !matches!(kind, Kind::Isaac | Kind::Isaac64) {
+            return Ok(g);
+        }
+        let k = (k - 1) as usize % 512;
+        let w = (kind.word_bits() / 8) as usize;
+        let mut img = match sut(guard(|| g.snapshot(SnapFmt::Bincode)), "serialize")? {
+            Some(i) => i,
+            None => return Ok(g),
+        };
+        // bincode layout of BlockRng / BlockRng64: results[256], index: u64, (half_used: u8,) core { mem[256], a, b, c }
+        let core_at = 256 * w + 8 + if kind == Kind::Isaac64 { 1 } else { 0 };
+        let at = if k < 256 { k * w } else { core_at + (k - 256) * w };
+        if at + w > img.len() {
+            return Ok(g);
+        }
+        for b in img[at..at + w].iter_mut() {
+            *b = 0;
+        }
+        match sut(guard(|| restore(kind, SnapFmt::Bincode, &img)), "deserialize")? {
+            Ok(z) => {
+                st.count("probe:zero_word_state");
+                Ok(z)
+            }
+            Err(_) => Ok(g),
+        }
+    }
+
     fn history(&self, spec: &Spec, st: &mut Stats) -> Result<(), E> {
         let kind = spec.kind.expect("kind");
         let fmt = fmt_of(spec.aux.first().copied().unwrap_or(0));
         // aux[1] (narrowed replay): check only this crash point
-        let only: Option<usize> = spec.aux.get(1).map(|x| *x as usize);
+        let only: Option<usize> = spec.aux.get(1).and_then(|x| if *x == u64::MAX { None } else { Some(*x as usize) });
         let native = if kind.word_bits() == 32 { Call::U32 } else { Call::U64 };
         // three blocks: a restored core whose hidden counters are off only shows from the second
         // refill after the restore on
         let drain = (3 * kind.block_words()).max(4);
 
         // the twin never serialises: expected outputs of the whole history and the drain
-        let mut twin = build(spec, false).map_err(E::End)?;
-        for _ in 0..spec.pre {
-            sut(super::c05::do_call(twin.as_mut(), native), "pre")?;
-        }
+        let mut twin = self.start(spec, native, st)?;
         let mut expected: Vec<Option<Out>> = Vec::new();
         for op in &spec.ops {
             expected.push(sut(apply(twin.as_mut(), op), "twin")?);
@@ -189,10 +231,7 @@ impl C11 {
             expected_drain.push(sut(super::c05::do_call(twin.as_mut(), native), "twin_drain")?);
         }
 
-        let mut live = build(spec, false).map_err(E::End)?;
-        for _ in 0..spec.pre {
-            sut(super::c05::do_call(live.as_mut(), native), "pre")?;
-        }
+        let mut live = self.start(spec, native, st)?;
         // model-free position tracking for signatures
         let wb = (kind.word_bits() / 8) as u64;
         let mut consumed = spec.pre as u64;
@@ -219,6 +258,9 @@ impl C11 {
                 let narrowed = |v: Violation| -> E {
                     let mut n = spec.clone();
                     n.aux = vec![spec.aux.first().copied().unwrap_or(0), point as u64];
+                    if let Some(z) = spec.aux.get(2) {
+                        n.aux.push(*z);
+                    }
                     let mut v = v;
                     v.narrowed = Some(Box::new(n));
                     E::End(RunEnd::Violation(v))
